@@ -62,7 +62,9 @@ def decodeSites : List String :=
 
 /-- the writers (sites that call `encode_frame`) -/
 def encodeSites : List String :=
-  ["sc/sop.py:SCImage.__init__", "pm/sop.py:ParametricMap._encode_frame", "legacy/sop.py:_convert_legacy_to_enhanced"]
+  ["sc/sop.py:SCImage.__init__", "pm/sop.py:ParametricMap._encode_frame", "legacy/sop.py:_convert_legacy_to_enhanced",
+   -- the Segmentation writer: the direct call and the submission to a worker pool, both with ONE keyword dictionary built nearby
+   "seg/sop.py:Segmentation.__init__#call0", "seg/sop.py:Segmentation.__init__#submit1"]
 
 /-- parameter of `decode_frame` ↦ the normal forms (T13g) under which `readFrame` / `PixelModule.params` is the call -/
 def readerSource : List (String × List String) :=
@@ -81,7 +83,7 @@ def readerSource : List (String × List String) :=
     the object's own attributes (a planar configuration that is not passed is `None`, which is what a reader finds
     on a data set without that attribute) -/
 def writerSource : List (String × List String) :=
-  [("array", ["local:pixel_array", "local:ds.pixel_array * 1"]),
+  [("array", ["local:pixel_array", "local:ds.pixel_array * 1", "local:segment_array"]),
    ("transfer_syntax_uid", ["file_meta.TransferSyntaxUID"]),
    ("bits_allocated", ["BitsAllocated"]), ("bits_stored", ["BitsStored"]),
    ("photometric_interpretation", ["PhotometricInterpretation"]),
